@@ -250,6 +250,14 @@ def L(p):
                                                                                   return_type='annotation')
     t['apply_static_mods-nomatch-annotation'] = lambda W: p.apply_static_mods(W[A], {'[WY]': 'Phospho'},
                                                                               return_type='annotation')
+    # digests that return the whole sequence as one of the peptides
+    t['digest-annotation-partial'] = lambda W: list(p.digest(W[A], 'lys-c', complete_digestion=False,
+                                                             return_type='annotation'))
+    t['digest-annotation-span-nosite'] = lambda W: list(p.digest(W[A], 'asp-n', return_type='annotation-span'))
+    t['digest-annotation-mc9'] = lambda W: list(p.digest(W[A], 'trypsin/P', 9, return_type='annotation'))
+    t['sequential_digest-annotation-partial'] = lambda W: list(p.sequential_digest(
+        W[A], [p.EnzymeConfig(['lys-c'], 0, False, False)], return_type='annotation'))
+    t['get_non_enzymatic_sequences-annotation'] = lambda W: list(p.get_non_enzymatic_sequences(W['B'], return_type='annotation'))
     t['C.__eq__'] = lambda W: (W['C'] == W['C2'], W['C2'] != W['C'])
     t['find_subsequence_indices-C'] = lambda W: p.find_subsequence_indices(W['C'], W['C2'])
     t['is_subsequence-C'] = lambda W: (p.is_subsequence(W['C2'], W['C']), p.is_subsequence(W['C2'], W['C'], order=False))
